@@ -121,7 +121,7 @@ func (cr *cursor) ruleLB25(breakOp *breakOpportunity, triggerNumSequence bool) {
 	}
 	if (br0 == ucd.BreakPR || br0 == ucd.BreakPO) &&
 		(br1 == ucd.BreakOP || br1 == ucd.BreakHY) &&
-		cr.nextLine == ucd.BreakNU {
+		cr.nextLineAfterMarks == ucd.BreakNU {
 		*breakOp = breakProhibited
 	}
 	// ( OP | HY ) × NU
@@ -416,6 +416,18 @@ func (cr *cursor) startIteration(text []rune, i int) {
 	// prevPrevLine and prevLine are handled in endIteration
 	cr.line = cr.nextLine // avoid calling LookupLineBreakClass twice
 	cr.nextLine = ucd.LookupLineBreakClass(cr.next)
+
+	// rule LB25 looks one class ahead of ( OP | HY ): following rule LB9,
+	// the combining marks attached to it must be skipped
+	cr.nextLineAfterMarks = cr.nextLine
+	if (cr.line == ucd.BreakOP || cr.line == ucd.BreakHY) && (cr.nextLine == ucd.BreakCM || cr.nextLine == ucd.BreakZWJ) {
+		for j := i + 2; j < len(text); j++ {
+			cr.nextLineAfterMarks = ucd.LookupLineBreakClass(text[j])
+			if cr.nextLineAfterMarks != ucd.BreakCM && cr.nextLineAfterMarks != ucd.BreakZWJ {
+				break
+			}
+		}
+	}
 }
 
 // end the current iteration, computing some of the properties
